@@ -63,10 +63,10 @@ Proof.
   eexists. eexists. repeat split; vm_compute; reflexivity.
 Qed.
 
-(* C13, known finding: enum Status {} compiles to STATUS_UNSPECIFIED = 0; after appending the option
-   OLD_UNSPECIFIED - now the FIRST option, and a first option ending in UNSPECIFIED is taken as
-   the zero value - value 0 is called STATUS_OLD_UNSPECIFIED: a previously generated enum value
-   changed its name *)
+(* C13, regression (fix a65e1f2): enum Status {} compiles to STATUS_UNSPECIFIED = 0; before the fix the
+   appended option OLD_UNSPECIFIED - then the FIRST option, and any first option ending in
+   UNSPECIFIED was taken as the zero value - renamed value 0 to STATUS_OLD_UNSPECIFIED.  Now it is
+   option number 1 and the old descriptors embed. *)
 Definition w_empty_enum : bundle :=
   [BJ (mkJfile foo_v1 (b "a") [] [EEnum (mkEnum (b "Status") [] [])])].
 Definition w_empty_enum_edit : list edit := [EAppendOption 0 0 (b "OLD_UNSPECIFIED")].
@@ -77,41 +77,30 @@ Definition zero_value (D : list dfile) : option (str * N) :=
   | [] => None
   end.
 
-Lemma append_to_empty_enum_renames_zero :
+Lemma append_to_empty_enum_keeps_zero :
   valid w_empty_enum = true /\ valid (apply_edits w_empty_enum w_empty_enum_edit) = true /\
   exists D D', compile w_empty_enum (b "foo.v1") = Ok D /\
                compile (apply_edits w_empty_enum w_empty_enum_edit) (b "foo.v1") = Ok D' /\
                zero_value D = Some (b "STATUS_UNSPECIFIED", 0) /\
-               zero_value D' = Some (b "STATUS_OLD_UNSPECIFIED", 0) /\
-               files_ext_b D D' = false.
+               map en_vals (flat_map fl_enums D') = [[(b "STATUS_UNSPECIFIED", 0); (b "STATUS_OLD_UNSPECIFIED", 1)]] /\
+               files_ext_b D D' = true.
 Proof.
   split; [vm_compute; reflexivity|]. split; [vm_compute; reflexivity|].
   eexists. eexists. repeat split; vm_compute; reflexivity.
 Qed.
 
-(* C02, known finding: enum Status { option OLD_UNSPECIFIED  option ACTIVE } - the first option ends
-   in UNSPECIFIED under a name of its own and is taken as the zero value: STATUS_OLD_UNSPECIFIED = 0,
-   STATUS_ACTIVE = 1.  There is no STATUS_UNSPECIFIED and the declared options are numbered from 0:
-   the package is valid, compiles, and its output violates the contract of the property text
-   (package_contract_full ... false) *)
+(* C02, regression (fix a65e1f2): enum Status { option OLD_UNSPECIFIED  option ACTIVE } - the first option
+   ends in UNSPECIFIED under a name of its own.  Before the fix it was taken as the zero value
+   (STATUS_OLD_UNSPECIFIED = 0, STATUS_ACTIVE = 1: no STATUS_UNSPECIFIED, options numbered from 0);
+   now it is an ordinary option after the implicit zero value. *)
 Definition w_named_zero : bundle :=
   [BJ (mkJfile foo_v1 (b "a") [] [EEnum (mkEnum (b "Status") [] [b "OLD_UNSPECIFIED"; b "ACTIVE"])])].
 
-Lemma named_zero_violates :
+Lemma named_zero_numbered_after_zero :
   valid w_named_zero = true /\
   exists D, compile w_named_zero (b "foo.v1") = Ok D /\
-    map en_vals (flat_map fl_enums D) = [[(b "STATUS_OLD_UNSPECIFIED", 0); (b "STATUS_ACTIVE", 1)]] /\
-    ~ package_contract_full to_snake to_camel to_screaming_snake false w_named_zero (b "foo.v1") D.
+    map en_vals (flat_map fl_enums D) =
+      [[(b "STATUS_UNSPECIFIED", 0); (b "STATUS_OLD_UNSPECIFIED", 1); (b "STATUS_ACTIVE", 2)]].
 Proof.
-  split; [vm_compute; reflexivity|]. eexists. split; [vm_compute; reflexivity|].
-  split; [vm_compute; reflexivity|].
-  intros [Hall _].
-  destruct (Hall _ (or_introl eq_refl) eq_refl) as ((df & Hd & Hm) & _).
-  destruct Hd as [<-|[]].
-  destruct Hm as (_ & _ & _ & _ & _ & He).
-  specialize (He _ (or_introl eq_refl)). cbn [element_ok nested_ok] in He.
-  destruct He as (de & Hin & _ & Hok).
-  destruct Hin as [<-|[]].
-  destruct (Hok (fun E => match Bool.diff_false_true E with end)) as (H0 & _).
-  vm_compute in H0. discriminate H0.
+  split; [vm_compute; reflexivity|]. eexists. split; vm_compute; reflexivity.
 Qed.
